@@ -105,5 +105,9 @@ LongName == { c \in { [BaseOf(k) EXCEPT !.name = nm, !.sg = s, !.app = IF k = "i
                         k \in Kinds, nm \in LongShapes, s \in {NoSg, SgHmac}, n \in {-1, 3} } :
               NameEl(FinalName(c)).len \in {252, 253, 254} }
 
-CfgSpace == FieldsI \cup FieldsD \cup WidthsI \cup WidthsD \cup Bound \cup Names \cup LongName
+\* digest placeholders of a wrong length (must be refused)
+BadDigest == { [BaseI EXCEPT !.name = nm, !.app = 5, !.sg = s, !.nonce = TRUE, !.life = 2] :
+                 nm \in { <<G1, Comp(2, 0)>>, <<G1, Comp(2, 33)>>, <<Comp(2, 31)>>, <<Comp(2, 0), G1>>, <<G1, Comp(2, 1), G1>> },
+                 s \in {NoSg, SgHmac} }
+CfgSpace == BadDigest \cup FieldsI \cup FieldsD \cup WidthsI \cup WidthsD \cup Bound \cup Names \cup LongName
 =============================================================================
